@@ -583,6 +583,7 @@ def run(ctx):
     # simulations one after the other / nested that share condition objects do not influence each other (family of C01)
     from harness.props import C01
     C01.reused_conditions(ctx, ctx.n(20, 300))
+    C01.exact_clocks(ctx, ctx.n(20, 200))     # "starts all root activities at `start`": whatever number type start is
     from harness.props import C07
     C07.float_tills(ctx, ctx.n(60, 600))      # nothing later than till, for inexact float dates
     scs, impl = machine_prop.run(ctx, [('mixed', 100, 1500, {}), ('trees', 60, 1000, {}), ('timers', 60, 1000, {'till_p': 0.8})],
